@@ -229,6 +229,13 @@ def splitList (x : String) : List String :=
 
 def parseCC (p cp : String) : Option (Int × String) := do pure (← parseInt p, ← unhxS cp)
 
+/-- `nil=a,b` / `omit=a,b` entries name component sections the document leaves nil; the rest is the body. -/
+def splitGenesisDoc (c : String) : String × List String :=
+  let parts := c.splitOn ";"
+  let isNil (kv : String) : Bool := kv.startsWith "nil=" || kv.startsWith "omit="
+  let nils := (parts.filter isNil).flatMap fun kv => match kv.splitOn "=" with | [_, v] => (v.splitOn ",").filter (· != "") | _ => []
+  (joinWith ";" (parts.filter fun kv => !isNil kv), nils)
+
 def parseGenesis (c : String) : Option Genesis :=
   (c.splitOn ";").foldlM (fun (g : Genesis) kv =>
     match kv.splitOn "=" with
@@ -575,12 +582,16 @@ def handle (st : DState) (line : String) : String × DState :=
           ++ " st=" ++ stateStr o, { st with w := { st.w with orb := o } })
      | _ => ("bad-op", st))
   | ["genvalidate", g] =>
-    (match parseGenesis g with
-     | some g => (match validateGenesis g with | .ok _ => "res=ok" | .err t => "res=err tag=" ++ t | .panic t => "res=panic tag=" ++ t, st)
+    (match parseGenesis (splitGenesisDoc g).1 with
+     | some b =>
+       let d : GenesisDoc := { body := b, nilSections := (splitGenesisDoc g).2 }
+       (match validateGenesisDoc d with | .ok _ => "res=ok" | .err t => "res=err tag=" ++ t | .panic t => "res=panic tag=" ++ t, st)
      | none => ("bad-op", st))
   | ["geninit", g] =>
-    (match parseGenesis g with
-     | some g => (match initGenesis g with | .ok o => "res=ok st=" ++ stateStr o | .err t => "res=err tag=" ++ t | .panic t => "res=panic tag=" ++ t, st)
+    (match parseGenesis (splitGenesisDoc g).1 with
+     | some b =>
+       let d : GenesisDoc := { body := b, nilSections := (splitGenesisDoc g).2 }
+       (match initGenesisDoc d with | .ok o => "res=ok st=" ++ stateStr o | .err t => "res=err tag=" ++ t | .panic t => "res=panic tag=" ++ t, st)
      | none => ("bad-op", st))
   | ["genload", g] =>
     (match parseGenesis g with
